@@ -595,7 +595,24 @@ def D23():
     return False
 
 
-ALL = [D17, D18, D19, D20, D21, D22, D23, F_C08_1, F_C04_3, F_C05_1, F_C05_2, D1, D2, D3, D4, D5, D6, D7, D8, D9, D10, D11, D12, D13, D14, D15, D16,
+def D24():
+    "C09: a subclass of a spec class with a defaulted init=False attribute cannot be instantiated"
+    @spec_class
+    class P:
+        x: int = Attr(default=3, init=False)
+        y: int = 1
+
+    @spec_class
+    class C(P):
+        z: int = 2
+
+    try:
+        return C().x != 3
+    except TypeError:
+        return True
+
+
+ALL = [D17, D18, D19, D20, D21, D22, D23, D24, F_C08_1, F_C04_3, F_C05_1, F_C05_2, D1, D2, D3, D4, D5, D6, D7, D8, D9, D10, D11, D12, D13, D14, D15, D16,
        F_C01_1, F_C02_1, F_C04_1, F_C13_1, F_C07_1, F_C07_2, F_C07_3, F_C04_2, F_C01_2]
 
 if __name__ == "__main__":
